@@ -26,16 +26,24 @@ from .t1_grid import _guard, apply, as_h, compose, identity_h, make_interp, teq,
 class Geo:
     """A grid built through deepali's constructor together with its header values (for the reference formulas)."""
 
-    def __init__(self, env: "SEnv", tag: str, size: Tuple[int, ...], ac: bool, oriented: bool = True):
+    def __init__(self, env: "SEnv", tag: str, size: Tuple[int, ...], ac: bool, oriented: bool = True, same_domain_as: Optional["Geo"] = None):
         D = len(size)
         self.size = size
         self.shape = tuple(reversed(size))
         self.ac = ac
-        self.s = [Rat.atom(f"s{tag}{i}") for i in range(D)]
-        self.c = [Rat.atom(f"c{tag}{i}") for i in range(D)]
-        for x in self.s:
-            env.facts.declare_positive(x)
-        self.R = rotation(D, tag) if oriented else symt.eye(D)
+        if same_domain_as is not None:
+            # another sampling of the same cube (Grid.cube(): extent (n-1) s with align_corners, n s without): same center and
+            # orientation, spacing scaled so that the cube extent under each grid's own flag is the same
+            o = same_domain_as
+            self.s = [o.s[i] * (o.size[i] - int(o.ac)) / (size[i] - int(ac)) for i in range(D)]
+            self.c = list(o.c)
+            self.R = o.R
+        else:
+            self.s = [Rat.atom(f"s{tag}{i}") for i in range(D)]
+            self.c = [Rat.atom(f"c{tag}{i}") for i in range(D)]
+            for x in self.s:
+                env.facts.declare_positive(x)
+            self.R = rotation(D, tag) if oriented else symt.eye(D)
         self.obj = env.it.new(env.Grid, size=size, spacing=STensor.from_flat(self.s, [D]), center=STensor.from_flat(self.c, [D]),
                               direction=self.R, align_corners=ac)
 
@@ -185,6 +193,32 @@ def run_batch_sample(ctx: Ctx) -> None:
                     _guard(ctx, "T5x.resample", f"batch:D={D}:src={a_s}:tgt={a_t}:per={per_image}", fS,
                            f"ImageBatch.sample D={D} source align_corners={a_s} target align_corners={a_t} per-image targets={per_image}", th)
 
+    # target grids that cover the same cube as the image grid with another size (pyramid levels), either flag on either side
+    for D in (2, 3):
+        ssz, tsz = SIZES[D]
+        for a_s in (True, False):
+            for a_t in (True, False):
+                def thd(D=D, ssz=ssz, tsz=tsz, a_s=a_s, a_t=a_t):
+                    env = SEnv(ctx)
+                    it = env.it
+                    src = Geo(env, "a", ssz, a_s)
+                    tg = Geo(env, "t", tsz, a_t, same_domain_as=src)
+                    if not it.method(src.obj, "same_domain_as", tg.obj):
+                        raise AnalysisError("same-domain scenario: the two grids are not reported as covering the same domain")
+                    data = STensor.symbols("I", [1, 1] + list(src.shape))
+                    batch = it.new(env.IB, data.clone(), (src.obj,))
+                    del symt.GRID_SAMPLE_CALLS[:]
+                    r = it.method(batch, "sample", tg.obj)
+                    calls = list(symt.GRID_SAMPLE_CALLS)
+                    if len(calls) != 1:
+                        return False, f"{len(calls)} torch.grid_sample calls"
+                    ok, msg = check_call_coords(calls[0], 0, src, tg.shape, compose(src.w2i(), tg.i2w()), "image")
+                    if not ok:
+                        return False, msg
+                    return True, ""
+                _guard(ctx, "T5x.resample", f"same-domain:D={D}:src={a_s}:tgt={a_t}", fS,
+                       f"ImageBatch.sample D={D} target covers the same cube with another size, source align_corners={a_s} target align_corners={a_t}", thd)
+
     # one target grid that equals the grid of the first image only
     for D in (2, 3):
         def thf(D=D):
@@ -308,7 +342,7 @@ def run_modules(ctx: Ctx) -> None:
         ssz, tsz = SIZES[D]
         for a_t in (True, False):
             for a_s in (True, False):
-                for axes in (None, "WORLD", "GRID"):
+                for axes in (None, "WORLD", "GRID", "CUBE", "CUBE_CORNERS"):
                     for centers in (False, True):
                         if centers and axes is not None:
                             continue
@@ -327,9 +361,17 @@ def run_modules(ctx: Ctx) -> None:
                                 X = identity_h(D)
                             elif axes == "GRID":
                                 X = tg.i2w()
+                            elif axes in ("CUBE", "CUBE_CORNERS"):
+                                X = compose(tg.i2w(), tg.cube2i(axes == "CUBE_CORNERS"))  # explicit cube convention, whatever the grid's flag
                             else:
                                 X = compose(tg.i2w(), tg.cube2i(a_t))
-                            Xinv_pts = it.method(tg.obj, "points", ax_obj)  # deepali's own lattice in `axes` (decided by C01)
+                            # the target lattice expressed in `axes` (own arithmetic): X^-1(W_tgt(j)) for every sample j
+                            to_ax = compose(_inverse_affine(X), tg.i2w())
+                            Xinv_pts = symt.stack([apply(to_ax, STensor.from_flat(list(j), [D])) for _, j in lattice(tg.shape)], 0) \
+                                .reshape([1] + list(tg.shape) + [D])
+                            own = it.method(tg.obj, "points", ax_obj)
+                            if not teq(own.reshape([1] + list(tg.shape) + [D]), Xinv_pts):
+                                return False, f"Grid.points({axes or ax_obj.name}) differs from the target lattice expressed in these axes"
                             base = compose(src.w2i(), tg.i2w())
                             if centers:
                                 D_ = D
@@ -418,7 +460,7 @@ def run_transformers(ctx: Ctx) -> None:
         ssz, tsz = SIZES[D]
         gsz = (2, 2) if D == 2 else (2, 2, 2)
         for a_g in (True, False):
-            for combo in ("all-distinct", "defaults", "source-only", "flip"):
+            for combo in ("all-distinct", "defaults", "source-only", "target-only", "flip"):
                 def th(D=D, ssz=ssz, tsz=tsz, gsz=gsz, a_g=a_g, combo=combo):
                     env = SEnv(ctx)
                     it = env.it
@@ -439,6 +481,10 @@ def run_transformers(ctx: Ctx) -> None:
                             kw["flip_coords"] = True
                     elif combo == "defaults":
                         tg = src = G
+                    elif combo == "target-only":
+                        # documented default: the input image is sampled on the *target* grid when no source grid is given
+                        tg = src = Geo(env, "t", tsz, not a_g)
+                        kw = {"target": tg.obj}
                     else:
                         tg = G
                         src = Geo(env, "a", ssz, not a_g)
